@@ -38,6 +38,13 @@ def configs(tier):
                 out.append({'name': 'q2d_sum-c%d-a%s-b%s' % (cm0, ''.join(map(str, lens[:M])), ''.join(map(str, lens[M:]))),
                             'kind': 'q2d', 'cm0': cm0, 'a': list(lens[:M]), 'b': list(lens[M:])})
     out.append({'name': 'q2d_sum-m3', 'kind': 'q2d', 'cm0': 1, 'a': [0, 0, 2], 'b': [0, 0, 4]})
+    # |m| == 1 switches on an extra alpha[3] correction when a family has more than 3 terms: cover 4..6 per family
+    for ln in (4, 5, 6):
+        out.append({'name': 'q2d_sum-m1-a%d' % ln, 'kind': 'q2d', 'cm0': 0, 'a': [ln], 'b': [0]})
+        out.append({'name': 'q2d_sum-m1-b%d' % ln, 'kind': 'q2d', 'cm0': 0, 'a': [0], 'b': [ln]})
+        out.append({'name': 'q2d_sum-m1-a%d-b%d' % (ln, 10 - ln), 'kind': 'q2d', 'cm0': 0, 'a': [ln], 'b': [10 - ln]})
+    out.append({'name': 'q2d_pack-highm1', 'kind': 'pack', 'nms': [[3, -1], [0, 1]]})
+    out.append({'name': 'q2d_pack-highm1b', 'kind': 'pack', 'nms': [[4, -1], [3, 1], [0, 0]]})
     if not q:
         out.append({'name': 'q2d_sum-m4', 'kind': 'q2d', 'cm0': 0, 'a': [0, 2, 0, 3], 'b': [1, 0, 0, 2]})
     # packer: lists of (n,m) with symbolic coefficients
@@ -55,7 +62,7 @@ def configs(tier):
     out.append({'name': 'sum_of_2d_modes', 'kind': 'modes', 'k': 3, 'shape': [2, 3]})
     out.append({'name': 'sum_of_2d_modes-1', 'kind': 'modes', 'k': 1, 'shape': [3, 2]})
     grids = [(3, 3), (3, 4)] if q else [(3, 3), (3, 4), (4, 4), (4, 5)]
-    masks = ['none', 'corner', 'row', 'interior', 'checker', 'edge'] + ([] if q else ['col', 'two', 'diag', 'L'])
+    masks = ['none', 'corner', 'row', 'interior', 'checker', 'edge', 'inf', 'neginf+nan'] + ([] if q else ['col', 'two', 'diag', 'L'])
     for g in grids:
         for mk in masks:
             out.append({'name': 'lstsq-%dx%d-%s' % (g[0], g[1], mk), 'kind': 'lstsq', 'grid': list(g), 'mask': mk})
@@ -100,6 +107,8 @@ def mask_cells(kind, shape):
         return [(0, 0), (m - 1, n - 1), (0, n - 1)]
     if kind == 'two':
         return [(0, 1), (2, 2)]
+    if kind in ('inf', 'neginf+nan'):
+        return [(0, 1), (m - 1, 0)]
     if kind == 'diag':
         return [(i, i) for i in range(min(m, n))][:2]
     if kind == 'L':
@@ -196,8 +205,13 @@ def run(cfg, H):
         for c, md in zip(cs, modes):
             data = data + c * md
         data = np.array(data, copy=True) if H.mode == 'concrete' else data.copy()
-        for (i, j) in mask_cells(cfg['mask'], (m, n)):
-            data[i, j] = H.nan
+        for cnt, (i, j) in enumerate(mask_cells(cfg['mask'], (m, n))):
+            if cfg['mask'] == 'inf':
+                data[i, j] = H.inf
+            elif cfg['mask'] == 'neginf+nan':
+                data[i, j] = -H.inf if cnt == 0 else H.nan
+            else:
+                data[i, j] = H.nan
         fit = H.expect_no_raise('lstsq-raises', lambda: P.lstsq(modes, data))
         if fit is None:
             return
